@@ -1,8 +1,8 @@
 CONSTANT P = 17
 CONSTANT N = 2
 CONSTANT MUT = "none"
-CONSTANT DIDS = {1, 3}
-CONSTANT BETAS = {2}
+CONSTANT DIDS = {1, 2, 3, 4, 5}
+CONSTANT BETAS = {2, 3, 5}
 INIT Init
 NEXT Next
 INVARIANT Theorem
